@@ -6,6 +6,7 @@ package processor
 // delicate.  They run before the generated ones on every run, against the real handlers, exactly like generated ones.
 
 import (
+	ethcommon "github.com/ethereum/go-ethereum/common"
 	"context"
 	"encoding/hex"
 	"encoding/json"
@@ -344,6 +345,74 @@ func vScripts() []vScript {
 			}
 			b, _ := v.Marshal()
 			dr.opInbound(b, "quorum-of-current-set-other-index")
+		}},
+		{"fault-c02-peers-first-while-the-aggregation-state-is-large", func(dr *vDriver, w *vWorld) {
+			// the processor keeps published entries for an hour: under load its aggregation state holds thousands of digests.  With 9000 of
+			// them in the state, two peers' observations of a new message arrive BEFORE the node's own observation: they are parked, and the
+			// node's own signature then completes the quorum (judged by the monitors only: the state was filled behind the model's back)
+			mem := members(4, 0)
+			dr.opClock(1000)
+			dr.opSetGS(w.set(mem, 0))
+			dr.h.Faults = true
+			now := time.Now()
+			for i := 0; i < 9000; i++ {
+				dr.p.state.vaaSignatures[fmt.Sprintf("%064x", i+1)] = &vaaState{firstObserved: now, submitted: true, settled: true, signatures: map[ethcommon.Address][]byte{}}
+			}
+			k := w.msg(0)
+			d := digestOfMsg(k, 0)
+			dr.opObs(w.obsBy(mem[1], d, k.TxHash[:]), "member")
+			dr.opObs(w.obsBy(mem[2], d, k.TxHash[:]), "member")
+			dr.opMsg(k)
+			dr.opLoop(0)
+			for h := range dr.p.state.vaaSignatures {
+				if len(h) == 64 && h[:40] == "0000000000000000000000000000000000000000" {
+					delete(dr.p.state.vaaSignatures, h)
+				}
+			}
+		}},
+		{"c03-genuine-signature-under-a-hash-field-of-another-length", func(dr *vDriver, w *vWorld) {
+			// a recorded (digest, signature, address) triple of a member, re-sent with a Hash field that is not 32 bytes long: junk in front
+			// of the digest, the digest without its first byte, the digest twice.  No such observation carries a signature over the bytes it
+			// names: nothing may be recorded (every different field value would otherwise open an aggregation entry of its own)
+			mem := members(4, 0)
+			dr.opClock(1000)
+			dr.opSetGS(w.set(mem, 0))
+			k := w.msg(0)
+			d := digestOfMsg(k, 0)
+			dr.opMsg(k)
+			dr.opLoop(0)
+			g := w.obsBy(mem[1], d, k.TxHash[:])
+			dr.opObs(g, "member")
+			for i, h := range [][]byte{append([]byte{0x01}, d...), append([]byte{0, 0, 0, 7}, d...), append(append([]byte{}, d...), d...), d[1:], append(w.r.bytes(32), d...), {}} {
+				dr.opObs(&gossipv1.SignedObservation{Addr: g.Addr, Hash: h, Signature: g.Signature, TxHash: k.TxHash[:], MessageId: "x"}, fmt.Sprintf("genuine-signature-hash-field-of-%d-bytes-%d", len(h), i))
+			}
+			dr.opObs(w.obsBy(mem[2], d, k.TxHash[:]), "member")
+		}},
+		{"c14-pending-entry-older-than-a-day-when-the-guardian-set-rotates", func(dr *vDriver, w *vWorld) {
+			// a signed message without quorum has been retried every five minutes for 25 hours (about 300 of its 14400 retries); then the
+			// guardian set rotates: the entry is still pending, still retried, not dropped because its set was replaced
+			mA := []int{-1, 30, 31, 32}
+			mB := []int{-1, 30, 40, 41}
+			dr.opClock(1000)
+			dr.opSetGS(w.set(mA, 0))
+			k := w.msg(0)
+			T := int64(1000)
+			dr.opMsg(k)
+			dr.opLoop(0)
+			if !tick(dr, &T, 31) {
+				return
+			}
+			for i := 0; i < 151; i++ {
+				if !tick(dr, &T, 600) {
+					return
+				}
+			}
+			dr.opSetGS(w.set(mB, 1))
+			for i := 0; i < 4; i++ {
+				if !tick(dr, &T, 300) {
+					return
+				}
+			}
 		}},
 		{"c13-inbound-vaa-under-quorum-with-signature-indices-outside-the-set", func(dr *vDriver, w *vWorld) {
 			// gossip needs no valid signature to get this far: one signature record each, naming guardian positions 0, 2, 3 (= the set
